@@ -66,6 +66,7 @@ struct Args {
     one: Option<String>,
     max_execs: usize,
     only_site: Vec<u32>,
+    pin: bool,
     budget_s: f64,
     noise: u32,
     reps: usize,
@@ -90,6 +91,7 @@ fn parse_args() -> Args {
         one: None,
         max_execs: usize::MAX,
         only_site: vec![],
+        pin: false,
         budget_s: 1e9,
         noise: 0,
         reps: 1,
@@ -112,6 +114,7 @@ fn parse_args() -> Args {
             "--skip-plan" => a.skip_plan = val(i).parse().unwrap(),
             "--one" => a.one = Some(val(i)),
             "--max-execs" => a.max_execs = val(i).parse().unwrap(),
+            "--pin" => a.pin = val(i) != "0",
             "--only-prefix" => {
                 // directed amplification: plans only for hook sites whose name starts with one of the prefixes
                 for pre in val(i).split(',') {
@@ -310,6 +313,9 @@ fn main() {
         }
     };
     may::config().set_workers(a.workers);
+    // may pins worker i to core i by default: with 16 shards side by side every runtime would sit on cores 0..3. Unpinned
+    // unless asked for (the driver pins every third shard: contention for a few cores is a perturbation worth having)
+    may::config().set_worker_pin(a.pin);
     // harness actors format strings, log events and unwind (cancel / panic faults) on coroutine stacks:
     // the default 32 KiB is too tight for that (a stack overflow ends the process with exit(1))
     may::config().set_stack_size(0x10000);
